@@ -502,7 +502,7 @@ fn not_depend_on(expr: &str, plan: &str) -> impl Fn(&mut EGraph, Id, &Subst) -> 
     let expr = var(expr);
     let plan = var(plan);
     move |egraph, _, subst| {
-        let used = &egraph[subst[expr]].data.columns;
+        let used = used(egraph, subst[expr]);
         let produced = produced(egraph, subst[plan]).collect();
         used.is_disjoint(&produced)
     }
@@ -513,7 +513,7 @@ fn depend_on(expr: &str, plan: &str) -> impl Fn(&mut EGraph, Id, &Subst) -> bool
     let expr = var(expr);
     let plan = var(plan);
     move |egraph, _, subst| {
-        let used = &egraph[subst[expr]].data.columns;
+        let used = used(egraph, subst[expr]);
         let produced = produced(egraph, subst[plan]).collect();
         !used.is_disjoint(&produced)
     }
@@ -524,10 +524,26 @@ fn all_depend_on(expr: &str, plan: &str) -> impl Fn(&mut EGraph, Id, &Subst) -> 
     let expr = var(expr);
     let plan = var(plan);
     move |egraph, _, subst| {
-        let used = &egraph[subst[expr]].data.columns;
+        let used = used(egraph, subst[expr]);
         let produced = produced(egraph, subst[plan]).collect();
         used.is_subset(&produced)
     }
+}
+
+/// Returns the columns used by the expression.
+///
+/// A reference to a class that holds a plain column (`(ref (* a 1))` once `(* a 1)` has been
+/// simplified to `a`) uses that column: this is how `produced` names it.
+fn used(egraph: &EGraph, expr: Id) -> HashSet<Expr> {
+    (egraph[expr].data.columns.iter())
+        .map(|e| match e {
+            Expr::Ref(id) => (egraph[*id].iter())
+                .find(|e| matches!(e, Expr::Column(_)))
+                .unwrap_or(e)
+                .clone(),
+            _ => e.clone(),
+        })
+        .collect()
 }
 
 /// Returns the columns produced by the plan.
@@ -592,8 +608,7 @@ fn apply_proj(pattern_str: &str) -> impl Applier<Expr, ExprAnalysis> {
             rule_name: Symbol,
         ) -> Vec<Id> {
             let used = (self.used.iter())
-                .flat_map(|v| &egraph[subst[*v]].data.columns)
-                .cloned()
+                .flat_map(|v| used(egraph, subst[*v]))
                 .collect::<HashSet<Expr>>();
 
             let mut subst = subst.clone();
@@ -647,9 +662,9 @@ fn column_prune(pattern_str: &str) -> impl Applier<Expr, ExprAnalysis> {
             searcher_ast: Option<&PatternAst<Expr>>,
             rule_name: Symbol,
         ) -> Vec<Id> {
-            let used1 = &egraph[subst[self.used[0]]].data.columns;
-            let used2 = &egraph[subst[self.used[1]]].data.columns;
-            let used = used1.union(used2).cloned().collect();
+            let used1 = used(egraph, subst[self.used[0]]);
+            let used2 = used(egraph, subst[self.used[1]]);
+            let used = used1.union(&used2).cloned().collect();
             let columns = egraph[subst[self.columns]].as_list();
             let filtered = (columns.iter().cloned())
                 .filter(|id| egraph[*id].data.columns.is_subset(&used))
